@@ -167,6 +167,12 @@ namespace xsv
         }
         else
         {
+            if (n == mfn::K_TGAMMA && o.known.count("tgamma64_stirling_overflow") && x < -170.5L && fabsl(exact) < ldexpl(1, -900))
+            {
+                // D17 (double): stirling(|x|) overflows, the result is 0 although the exact value is a tiny normal number
+                if (got == 0 || err <= 16.0 * (double)fabsl(x))
+                    return "tgamma64_stirling_overflow";
+            }
             if (n == mfn::K_TRIG && o.known.count("trig64_near_multiple_of_pio2") && fabsl(x) <= 63)
             {
                 // D18: |x| <= 20 pi within 2^-49 |x| of a multiple of pi/2; regression: error <= 2^16 ulp
